@@ -624,6 +624,7 @@ type c15Fwd struct {
 	refused                  int
 	targetClosed, held       bool
 	closing, removeDelivered bool
+	needCloseTsk, closeTskSeen bool // the target closed: the agent has to be told to close its end
 }
 
 type c15Checkin struct {
@@ -633,6 +634,7 @@ type c15Checkin struct {
 	needClose []*c15Cli
 	needCli   map[*c15Cli]int
 	needFwd   map[*c15Fwd]int
+	needFwdClose []*c15Fwd
 }
 
 type c15Demon struct {
@@ -1120,6 +1122,9 @@ func (st *c15State) checkin(dm *c15Demon) {
 		if f.di == dm.idx && f.mustDeliver > len(f.toAgent) {
 			ck.needFwd[f] = f.mustDeliver
 		}
+		if f.di == dm.idx && f.needCloseTsk && !f.closeTskSeen && !f.closing {
+			ck.needFwdClose = append(ck.needFwdClose, f)
+		}
 		if f.di == dm.idx && f.readSeq > 0 {
 			f.inflight = true
 		}
@@ -1310,6 +1315,11 @@ func (st *c15State) afterSettle(reason simrt.StopReason) {
 			// this check-in) needs no close task: whichever side the teamserver notices first wins
 			if !c.closeTskSeen && !c.agentClosed {
 				st.v("closure", c.closeKind+"-no-close-task-for-agent", fmt.Sprintf("client %d (socket %08x) closed its connection; the next check-in of agent %s carried no close task for that socket", c.slot, c.id, dm.d.NameID()))
+			}
+		}
+		for _, f := range ck.needFwdClose {
+			if !f.closeTskSeen && !f.closing {
+				st.v("closure", "forward-target-closed-no-close-task-for-agent", fmt.Sprintf("forward socket %08x -> %s: the target closed the connection; the next check-in of agent %s carried no close task for that socket", f.id, f.lis.target, dm.d.NameID()))
 			}
 		}
 		for _, c := range st.clients() {
@@ -1684,6 +1694,16 @@ func (st *c15State) dispatch(dm *c15Demon, t world.Task) {
 		st.v("socket-task", "write-for-unknown-socket", fmt.Sprintf("agent %s: write task for socket %08x which no connect task or forward announced (%d bytes)", dm.d.NameID(), k.ID, len(k.Data)))
 	case world.SockClose:
 		res.Probe("close-tasks")
+		for _, f := range st.fwds() {
+			if f.di == dm.idx && f.id == k.ID && f.opened && !f.closeTskSeen {
+				// the Demon marks the socket for removal; SocketFree reports the removal back
+				f.closeTskSeen = true
+				if !f.closing {
+					st.closeFwd(f)
+				}
+				res.Probe("close-tasks-for-forward-sockets")
+			}
+		}
 		if c := dm.byID[k.ID]; c != nil {
 			c.closeTskSeen = true
 			if c.agentSock {
@@ -1797,8 +1817,21 @@ func (st *c15State) forwards() {
 		if !f.closing && f.conn != nil {
 			f.mustDeliver = len(f.targetWrote)
 		}
-		if f.targetClosed && f.conn != nil && !f.removeDelivered {
-			st.observe("after a forward target closes, the teamserver keeps the forward socket and its reader loops on an EOF connection (busy wait)")
+		if f.targetClosed && f.conn != nil && !f.removeDelivered && !f.closing && !st.par {
+			// the target is done with the connection: "closing either side removes the socket
+			// everywhere" - the teamserver lets go of its end at once, the agent is told at its next check-in
+			res.Probe("forward-target-closures-checked")
+			if !f.conn.ServerClosed() {
+				st.v("closure", "forward-target-closed-connection-left-open", fmt.Sprintf("%s: the target closed the connection, the teamserver has not closed its end", who))
+			}
+			if ag := st.agent(f.di); ag != nil {
+				for _, pf := range ag.PortFwds {
+					if pf != nil && uint32(pf.SocktID) == f.id {
+						st.v("closure", "forward-target-closed-still-registered", fmt.Sprintf("%s: the target closed the connection, the socket is still in the teamserver's forward table", who))
+					}
+				}
+			}
+			f.needCloseTsk = true
 		}
 		if f.removeDelivered {
 			res.Probe("forward-closures-checked")
